@@ -162,10 +162,8 @@ func (p *parser) parseMessageText() (dataItem ast.ItemNode, ok bool) {
 		return ast.NewListNode(values...), true
 
 	case formatCodeASCII:
-		var str string
-		for _, v := range p.input[p.pos : p.pos+length] {
-			str += string(v)
-		}
+		// bytes above 0x7F become invalid UTF-8 and are refused by NewASCIINode
+		str := string(p.input[p.pos : p.pos+length])
 		p.pos += length
 		return ast.NewASCIINode(str), true
 
